@@ -124,6 +124,21 @@ _R9 = {
 }
 for _p, _t in _R9.items():
     CHECKS[_p]["text"] = CHECKS[_p]["text"] + _t
+# ---- clauses added in round 10
+_R10 = {
+ "C06": " Every iteration of the writer's loop over the keys executes a .grad write (no `continue` before it).",
+ "C07": " vmap's own chunk_size, where the expression is not readable (a factory parameter), is decided by the instance runs (chunk >= rows of the block it is applied to).",
+ "C11": " A read-only module-level table is a constant, a written one is state; values computed from the matrix are not converted to a narrower fixed dtype on the way; isclose() is modelled with its default absolute tolerance.",
+ "C12": " The worklist is unbounded (no deque maxlen); leaf discovery may be done per group of tensors.",
+ "C13": " The two entry points list retain_graph / parallel_chunk_size in the same relative order (sibling cross-check).",
+ "C14": " Stack's constructor is decided by abstract execution like Conjunction's (spreading `*generator` consumes it); checks that REPORT instead of raising are a layout this rule does not read (undecided).",
+ "C15": " Zeros standing in for a missing gradient are flattened like the gradients before they are laid end to end.",
+ "C18": " MGDA makes max_iters steps (a counter started at 1, `range(1, n)`, is reported); counter- and flag-driven while loops are read as the for loops they are.",
+ "C19": " In the method that stores the weights, a store of the returned value dominates every `return <local>`; a helper object held in an attribute (a call counter) is read through its methods.",
+ "C20": " all()/any() over a validator that returns None stops after the first element (reported); the validated collection is not de-duplicated by a key computed from the tensors.",
+}
+for _p, _t in _R10.items():
+    CHECKS[_p]["text"] = CHECKS[_p]["text"] + _t
 NA_PENDING = "check not built yet in this commit (planned, see DESIGN.md section 5)"
 NOT_APPLICABLE = {
  "C04": "Non-conflict is a numerical inequality on the outputs of a QP, a Frank-Wolfe loop and a conic solver with input-dependent allowances; no clause of it is visible in the shape of the code.",
